@@ -21,45 +21,52 @@ def gen_defs(spt, salt=0):
     bz = spt.bezier
     names = ['a0', 'a1', 'a2', 'a3']
 
-    def job(r):
-        sh = _cubic_with_critical(Fr(1, 3) + Fr(salt % 7, 100), Fr(3, 4), Fr(2 + salt % 3), Fr(1, 5))
-        env = dict(zip(names, sh))
-        a = [st.R.var(n, env[n]) for n in names]
-        rec = {'sqrt': [], 'pts': []}
-        saved = (bz.sqrt, bz.bezier_point)
+    def mkjob(sign):
+        """sign = +1: shadow with tau >= 0 (q = tau + sqdelta); -1: tau < 0 (q = tau - sqdelta)"""
+        def job(r):
+            # a'(t) = 3k (t-r1)(t-r2) has denom = -k and tau = -k (r1+r2)/2
+            sh = _cubic_with_critical(Fr(1, 3) + Fr(salt % 7, 100), Fr(3, 4), Fr(-sign * (2 + salt % 3)), Fr(1, 5))
+            env = dict(zip(names, sh))
+            a = [st.R.var(n, env[n]) for n in names]
+            rec = {'sqrt': [], 'pts': []}
+            saved = (bz.sqrt, bz.bezier_point)
 
-        def my_sqrt(x):
-            rec['sqrt'].append(x)
-            return st.sqrt(x)
+            def my_sqrt(x):
+                rec['sqrt'].append(x)
+                return st.sqrt(x)
 
-        def my_bp(p, t):
-            rec['pts'].append(t)
-            return saved[1](p, t)
-        try:
-            bz.sqrt, bz.bezier_point = my_sqrt, my_bp
-            lo, hi = bz.bezier_real_minmax(a)
-        finally:
-            bz.sqrt, bz.bezier_point = saved
-        assert len(rec['sqrt']) == 1 and len(rec['pts']) == 4, rec
-        delta = rec['sqrt'][0]
-        r1, r2 = rec['pts'][2], rec['pts'][3]
-        # r = (tau +- sqrt(delta)) / denom
-        assert r1.n.op == 'div' and r2.n.op == 'div' and r1.n.args[1] is r2.n.args[1]
-        denom = st.R(r1.n.args[1])
-        num1 = r1.n.args[0]
-        assert num1.op == 'add' and num1.args[1].op == 'fn'
-        tau = st.R(num1.args[0])
-        (t,), e2 = realvars(['t'], r)
-        env2 = dict(env); env2.update(e2)
-        val = saved[1](a, t)
-        out = [Def('minmax_denom', names, denom.n, 'bezier.bezier_real_minmax: denom'),
-               Def('minmax_delta', names, delta.n, 'bezier.bezier_real_minmax: delta (argument of sqrt)'),
-               Def('minmax_tau', names, tau.n, 'bezier.bezier_real_minmax: tau'),
-               Def('minmax_r1', names, r1.n, 'bezier.bezier_real_minmax: r1 (third local extremizer)'),
-               Def('minmax_r2', names, r2.n, 'bezier.bezier_real_minmax: r2 (fourth local extremizer)'),
-               Def('minmax_value', names + ['t'], node(val), 'bezier.bezier_point(a, t) as used by bezier_real_minmax')]
-        return out
-    defs = retry(job, 'c08/minmax' + ('/%d' % salt if salt else ''))
+            def my_bp(p, t):
+                rec['pts'].append(t)
+                return saved[1](p, t)
+            try:
+                bz.sqrt, bz.bezier_point = my_sqrt, my_bp
+                lo, hi = bz.bezier_real_minmax(a)
+            finally:
+                bz.sqrt, bz.bezier_point = saved
+            assert len(rec['sqrt']) == 1 and len(rec['pts']) == 4, rec
+            delta = rec['sqrt'][0]
+            r1, r2 = rec['pts'][2], rec['pts'][3]
+            # r1 = q / denom, r2 = (a0 - a1) / q with q = tau +- sqrt(delta)
+            assert r1.n.op == 'div' and r2.n.op == 'div' and r2.n.args[1] is r1.n.args[0]
+            denom = st.R(r1.n.args[1])
+            q = r1.n.args[0]
+            assert q.op == ('add' if sign > 0 else 'sub') and q.args[1].op == 'fn', q.op
+            tau = st.R(q.args[0])
+            assert (tau.val >= 0) == (sign > 0)
+            tag = 'pos' if sign > 0 else 'neg'
+            out = [Def('minmax_r1_' + tag, names, r1.n, 'bezier.bezier_real_minmax: r1 (third local extremizer) on the path tau %s 0' % ('>=' if sign > 0 else '<')),
+                   Def('minmax_r2_' + tag, names, r2.n, 'bezier.bezier_real_minmax: r2 (fourth local extremizer) on the path tau %s 0, q != 0' % ('>=' if sign > 0 else '<'))]
+            if sign > 0:
+                (t,), e2 = realvars(['t'], r)
+                val = saved[1](a, t)
+                out = [Def('minmax_denom', names, denom.n, 'bezier.bezier_real_minmax: denom'),
+                       Def('minmax_delta', names, delta.n, 'bezier.bezier_real_minmax: delta (argument of sqrt)'),
+                       Def('minmax_tau', names, tau.n, 'bezier.bezier_real_minmax: tau')] + out + [
+                       Def('minmax_value', names + ['t'], node(val), 'bezier.bezier_point(a, t) as used by bezier_real_minmax')]
+            return out
+        return job
+    defs = retry(mkjob(+1), 'c08/minmax' + ('/%d' % salt if salt else ''))
+    defs += retry(mkjob(-1), 'c08/minmax-neg' + ('/%d' % salt if salt else ''))
 
     # degenerate cubic coordinate (denom == 0) and the quadratic / line route: derivative coefficients handed to the root finder
     def job2(r):
@@ -138,7 +145,7 @@ def correspond(ctx):
         bz.sqrt = _exact_sqrt
         bz.polyroots01 = no_roots
         for it in range(ctx.n(300, 3000)):
-            kind = r.choice(['two-real', 'two-real', 'complex', 'degenerate'])
+            kind = r.choice(['two-real', 'two-real', 'two-real', 'double', 'complex', 'degenerate'])
             k = Fr(r.choice([-3, -1, 1, 2, 5]), r.choice([1, 2]))
             c0 = Fr(r.randint(-8, 8), 4)
             if kind == 'two-real':
@@ -146,6 +153,11 @@ def correspond(ctx):
                 r2 = Fr(r.randint(-6, 14), 8)
                 a = _cubic_with_critical(r1, r2, k, c0)
                 c.count('critical points in (0,1): %d' % sum(1 for x in (r1, r2) if 0 < x < 1))
+                c.count('tau %s 0' % ('>=' if -k * (r1 + r2) >= 0 else '<'))
+            elif kind == 'double':   # tau^2 = delta = 0 when the double root is 0: the `q != 0` guard
+                r1 = r2 = Fr(r.choice([0, 0, 0, 1, 4, 8, -3]), 8)
+                a = _cubic_with_critical(r1, r2, k, c0)
+                c.count('double critical point at %s' % ('0 (q == 0)' if r1 == 0 else 'another place'))
             elif kind == 'complex':
                 p, q = Fr(r.randint(-4, 12), 8), Fr(r.randint(1, 6), 4)
                 # a'(t) = 3k((t-p)^2 + q^2)
@@ -222,7 +234,7 @@ def sample(ctx, budget=1.0, hint=None, broken=None):
                  repr((xs.min(), xs.max(), ys.min(), ys.max())), rep)
 
     for it in range(int(ctx.n(250, 3000) * budget)):
-        kind = r.choice(['line', 'quad', 'cubic', 'cubic', 'cubic-elevated', 'cubic-monotone', 'arc', 'arc', 'arc-large'])
+        kind = r.choice(['line', 'quad', 'cubic', 'cubic', 'cubic-elevated', 'cubic-near-elevated', 'cubic-monotone', 'arc', 'arc', 'arc-large'])
         scale = r.choice([1e-2, 1.0, 1.0, 1e3])
         if kind in ('line', 'quad', 'cubic'):
             ps, scale = _rand_pts(r, {'line': 2, 'quad': 3, 'cubic': 4}[kind])
@@ -237,6 +249,22 @@ def sample(ctx, budget=1.0, hint=None, broken=None):
                 y = [r.uniform(-50, 50) for _ in range(4)]
                 xs_ = [q[0].real, (q[0].real + 2 * q[1].real) / 3, (2 * q[1].real + q[2].real) / 3, q[2].real]
                 seg = P.CubicBezier(*[complex(a, b) for a, b in zip(xs_, y)])
+        elif kind == 'cubic-near-elevated':
+            # decimal coordinates whose cubic term vanishes exactly over the rationals but leaves a rounding
+            # residue in floats (the input class of the repaired cancellation defect)
+            def coord():
+                while True:
+                    a0, a1, a2 = [r.randint(-9, 9) for _ in range(3)]
+                    a3 = a0 - 3 * a1 + 3 * a2
+                    if abs(a3) <= 30:
+                        d = r.choice([10.0, 1000.0, 1e5, 0.7])
+                        return [a0 / d, a1 / d, a2 / d, a3 / d]
+            x, y = coord(), (coord() if r.random() < 0.5 else [r.uniform(-1, 1) for _ in range(4)])
+            if r.random() < 0.5:
+                x, y = y, x
+            seg = P.CubicBezier(*[complex(a, b) for a, b in zip(x, y)])
+            if seg.start == seg.control1 == seg.control2 == seg.end:
+                continue
         elif kind == 'cubic-monotone':
             x = sorted(r.uniform(-5, 5) for _ in range(4)); y = sorted(r.uniform(-5, 5) for _ in range(4))
             seg = P.CubicBezier(*[complex(a, b) for a, b in zip(x, y)])
